@@ -6,7 +6,8 @@ CONSTANTS
   Seat <- Seat4
   MaxRounds = 2
   MaxReqs = 3
-  MaxDeliver = 100
+  MaxDkgDeliver = 100
+  MaxRelayDeliver = 100
   MaxBad = 3
   MaxStops = 100
   MaxViewMis = 4
